@@ -10,10 +10,12 @@ open Dos Dos.Pipe Dos.Gen.Pipes
 
 theorem grouping_wf : subsetOf (violations grouping) Gen.PipeKnown.sites = true := by decide +kernel
 
-/-- the key-generation pipeline (`handleGrouping` + `pdkg.Grouping` + `pdkg.Loop`) -/
-theorem grouping_pipeline_terminates_and_never_crashes :
+/-- the key-generation pipeline (`handleGrouping` + `pdkg.Grouping` + `pdkg.Loop`): no channel panic
+is reachable, and after the deadline a terminating schedule exists from every reachable state (EF;
+termination with probability 1 under the fairness assumption, see Props/C14.lean) -/
+theorem grouping_pipeline_can_always_terminate_and_never_crashes :
     NoCrash grouping ∧ ∀ s, Reach grouping s → s.ctxDone 0 = true → ∃ s', Path grouping s s' ∧ Quiet grouping s' := by
-  have h := pipeline_terminates_and_never_crashes _ grouping_wf
+  have h := pipeline_can_always_terminate_and_never_crashes _ grouping_wf
   exact ⟨h.1, fun s hr hc => by obtain ⟨s', a, b, _⟩ := h.2 s hr hc; exact ⟨s', a, b⟩⟩
 
 /-! ## every channel of a key-generation session is closed in the end
